@@ -131,6 +131,10 @@ impl From<Instant> for Uptime {
 
 impl FormatTime for SystemTime {
     fn format_time(&self, w: &mut Writer<'_>) -> fmt::Result {
+        #[cfg(tokio_rs_tracing_verif)]
+        if let Some(now) = tracing_core::__verif::now() {
+            return write!(w, "{}", datetime::DateTime::from(now));
+        }
         write!(
             w,
             "{}",
